@@ -110,6 +110,11 @@ def patch_modules():
     mq.rndstr  = lambda *a, **k: W().rndstr(*a, **k)
     flt.rndstr = lambda *a, **k: W().rndstr(*a, **k)
 
+    class SimMetrics(mq.DummyMetrics):      # mq.Metrics starts real threads (psutil polling, nvidia-smi): a dedicated metrics output gets the dummy's numbers
+        log_text = staticmethod(mq.Metrics.log_text)
+
+    mq.Metrics = SimMetrics
+
     tm = types.ModuleType('time')   # module-like and NOT callable, exactly like the real `time` module filter.py imports
     import time as _t
 
@@ -463,6 +468,12 @@ def SimFilterClass():
                     ret = deferred
                 elif o == 'none':
                     ret = None
+                elif o == 'callable_none_at':   # ('callable_none_at', [seqs]): a deferred result that turns out to be None (frame skipped at send time) for those frames
+                    frames_out = None if seq in op[1] else ret
+                    def deferred(frames_out=frames_out):
+                        self._log('deferred', k=k, seq=seq, wire_len=len(W().net.wire))
+                        return frames_out
+                    ret = deferred
                 elif o == 'callable_raise':     # ('callable_raise', k): the deferred result of call k raises when it is evaluated (at send)
                     if k == op[1]:
                         def deferred_raise():
